@@ -1,2 +1,3 @@
 -- Helper lemmas used by the property theorems.
 import Proofs.EarlyStop
+import Proofs.SkyEstimate
